@@ -57,8 +57,9 @@ pub fn jstr(s: &str) -> String {
 
 /// Printable rendition of bytes for evidence samples (lossy, escaped).
 pub fn show(b: &[u8]) -> String {
+    let lim: usize = std::env::var("CVH_SHOW").ok().and_then(|v| v.parse().ok()).unwrap_or(200);
     let mut s = String::new();
-    for &x in b.iter().take(200) {
+    for &x in b.iter().take(lim) {
         match x {
             b'\\' => s.push_str("\\\\"),
             0x20..=0x7e => s.push(x as char),
@@ -70,7 +71,7 @@ pub fn show(b: &[u8]) -> String {
             }
         }
     }
-    if b.len() > 200 {
+    if b.len() > lim {
         s.push_str("...");
     }
     s
